@@ -181,19 +181,15 @@ fn extracted_fun_src(
     body_end: usize,
     params: &[(SymbolName, Option<Type>)],
 ) -> String {
-    let return_signature = match return_ty {
-        Some(Type::Any) | None => "".to_owned(),
-        Some(Type::Error { inferred_type, .. }) => match inferred_type {
-            Some(ty) => format!(": {ty}"),
-            None => "".to_owned(),
-        },
-        Some(ty) => format!(": {ty}"),
+    let return_signature = match return_ty.and_then(hint_src) {
+        Some(hint) => format!(": {hint}"),
+        None => "".to_owned(),
     };
 
     let params_signature = params
         .iter()
-        .map(|(param, ty)| match ty {
-            Some(ty) => format!("{}: {}", param.text, ty),
+        .map(|(param, ty)| match ty.as_ref().and_then(hint_src) {
+            Some(hint) => format!("{}: {}", param.text, hint),
             None => param.text.to_owned(),
         })
         .collect::<Vec<_>>()
@@ -206,6 +202,33 @@ fn extracted_fun_src(
         return_signature,
         &src[body_start..body_end]
     )
+}
+
+/// The source code of a type hint for `ty`, if it can be written as
+/// one.
+fn hint_src(ty: &Type) -> Option<String> {
+    match ty {
+        Type::Any => None,
+        Type::Error {
+            inferred_type: Some(inferred_type),
+            ..
+        } => hint_src(inferred_type),
+        _ if contains_error(ty) => None,
+        _ => Some(ty.to_string()),
+    }
+}
+
+/// Does `ty` have an error type anywhere inside it?
+fn contains_error(ty: &Type) -> bool {
+    match ty {
+        Type::Error { .. } => true,
+        Type::Tuple(items) => items.iter().any(contains_error),
+        Type::Fun {
+            params, return_, ..
+        } => params.iter().any(contains_error) || contains_error(return_),
+        Type::UserDefined { args, .. } => args.iter().any(contains_error),
+        Type::Any | Type::TypeParameter(_) => false,
+    }
 }
 
 fn locals_outside_exprs(
